@@ -25,3 +25,8 @@ def run(chk):
     executor_contracts.replay_items(chk, "C16")
     executor_contracts.handlers_dispatch(chk, "C16")
     wrapper_contracts.large_results(chk, "C16")
+    executor_contracts.item_in_child_context(chk, "C16")     # a branch is a child context of its own: no batch-level summary generator on it
+    from . import context_contracts
+    context_contracts.batch_summary_wiring(chk, "C16")
+    from . import c15
+    c15.serialized_text_is_ascii(chk, "C16")                  # the 256 KB test counts characters: the default serializer's text is ASCII        # ... it belongs to the child handler of the whole map / parallel
